@@ -35,6 +35,20 @@ CLAIMED['C17'] = {
     'design_ref': 'DESIGN.md 4 (C17)',
 }
 
+CLAIMED['C20'] = {
+    'text': 'Seeded deterministic simulation of multi-day histories on one long-lived perdictable under a simulated wall clock (the library reads '
+            'today = dt(0) through the clock seam): the clock advances by hours to months, stalls, or jumps back; inputs gain and lose keys; an '
+            'expiry table classifies each key as absent/None/past/future/today relative to the simulated date; yesterday\'s output is fed back as '
+            'data with rows withheld or lost entirely. Oracles: keyed-join reference model (inner join, outer join for defaulted inputs, scalar '
+            'broadcast, sort), per-row frozen-or-fresh value check, and a call ledger proving exactly one evaluation per row that needs computing and '
+            'none for frozen rows. Evidence over sampled histories, not proof.',
+    'note': 'Value-output path of perdictable (functions without .output). Keys unique per table; every table carries all key columns. Accepted '
+            'either way where the statement is ambiguous: expiry falling on today\'s date, row order with two key columns, result of an empty join. '
+            'One recorded finding (expired row without previous value, if_none=False) is reported as KNOWN-FINDING; only a tenth of the runs provoke it.',
+    'technique': 'deterministic simulation: seeded multi-day feedback histories under a simulated clock with clock-jump and state-loss faults, reference-model and call-ledger oracles',
+    'design_ref': 'DESIGN.md 4 (C20)',
+}
+
 NOT_APPLICABLE = {
     'C02': 'join/xor: result and termination are a function of the two argument tables of one call; no schedule, clock, shared state or fault to simulate.',
     'C03': 'df_sync/df_reindex/presync alignment: pure function of the argument collection and policy; presync wrappers hold no mutable state.',
